@@ -162,15 +162,15 @@ class _R:
                 else:
                     eq = "=" if not self.flip(0.15) else " = "
                     items.append(f"{f}{eq}{txt}")
-            # optionally spell out a default explicitly
-            if self.level and self.flip(0.2):
-                defaults = {"Point": ("y", "0"), "FPoint": ("y", "0"), "Box": ("name", "'box'"),
-                            "APoint": ("c", "5"), "AFrozen": ("v", "None"), "PModel": ("opt", "None"),
-                            "NT": ("b", "0"), "TNT": ("q", "'q'"), "Outer.Cfg": ("n", "0"),
-                            "APriv": ("y", "2"), "PAlias": ("other", "3")}
-                f, txt = defaults[name]
-                if f not in given:
-                    items.append(f"{f}={txt}")
+            # optionally spell out defaults explicitly, anywhere among the keyword arguments
+            if self.level and self.flip(0.25):
+                for f, txt in ALL_DEFAULTS[name]:
+                    if f not in given and self.flip(0.6):
+                        items.insert(self.draw(st.integers(npos, len(items))), f"{f}={txt}")
+            # keyword arguments in another order than the fields
+            if self.level and len(items) - npos >= 2 and self.flip(0.2):
+                kws = self.draw(st.permutations(items[npos:]))
+                items = items[:npos] + list(kws)
             return self.seq(name + "(", items, ")", indent=indent)
         if k == "vec":
             return self.seq("Vec(", [self.render(x, indent + 1) for x in d[1]], ")", indent=indent)
@@ -178,6 +178,16 @@ class _R:
             inner = self.render(["dict", d[2]], indent + 1)
             return f"defaultdict({d[1]}, {inner})"
         return gv.natural(d)
+
+
+ALL_DEFAULTS = {
+    "Point": [("y", "0")], "FPoint": [("y", "0")],
+    "Box": [("items", "[]"), ("name", "'box'"), ("meta", "{}")],
+    "APoint": [("b", "[]"), ("c", "5")], "AFrozen": [("v", "None")],
+    "PModel": [("tags", "[]"), ("opt", "None")],
+    "NT": [("b", "0")], "TNT": [("q", "'q'")], "Outer.Cfg": [("n", "0")],
+    "APriv": [("y", "2")], "PAlias": [("other", "3")],
+}
 
 
 def _iskw(s):
